@@ -122,7 +122,8 @@ def run(ctx, rep):
     back = []
     n_h = 0
     for h in A.walk(f.node):
-        if isinstance(h, ast.ExceptHandler) and h.type is not None and "EOFError" in A.src(h.type):
+        if isinstance(h, ast.ExceptHandler) and (h.type is None or any(
+                k_ in A.src(h.type) for k_ in ("EOFError", "Exception", "BaseException"))):
             n_h += 1
             for st in h.body:
                 for c_ in A.calls(st):
@@ -130,10 +131,10 @@ def run(ctx, rep):
                     if d_.startswith("self._channel.") or (d_.startswith("self.") and d_.count(".") == 1 and
                                                            d_[5:] not in ("_cleanup", "close") and touches_channel(d_[5:])):
                         back.append(c_)
-    rep.floor("R11.1", "handlers for a dead peer in close()", n_h, 1)
+    rep.floor("R11.1", "handlers that can see a dead peer's EOFError in close()", n_h, 1)
     rep.ob("R11.1", "close(): the handler for a peer that is already gone does not use the transport again", not back,
            "EOFError during the closing handshake is absorbed" if not back else
-           "`%s` inside the `except EOFError` handler of close() reaches the channel of a transport that has just failed: it raises "
+           "`%s` inside the handler of close() that receives the dead peer's EOFError reaches the channel of a transport that has just failed: it raises "
            "EOFError again, so close() itself raises - a caller closing many connections in a loop (a server shutting down) stops "
            "at the first dead one and leaves the rest open" % A.src(back[0])[:50], ctx.loc(back[0]) if back else f.loc, kind="site")
 
